@@ -412,6 +412,7 @@ func genWorld(seed uint64, tier string, mode string) *Script {
 	nph := g.rng(2, o.MaxPhases)
 	down := map[int]bool{}
 	deleted := map[int]bool{}
+	disabled := map[int]bool{}
 	for ph := 1; ph < nph; ph++ {
 		var p Phase
 		nops := g.rng(3, o.OpsPerPh)
@@ -423,6 +424,10 @@ func genWorld(seed uint64, tier string, mode string) *Script {
 				if deleted[c.Idx] {
 					p.Ops = append(p.Ops, Op{Kind: "addpeer", Actor: -1, Peer: c.Idx})
 					deleted[c.Idx] = false
+				}
+				if disabled[c.Idx] {
+					p.Ops = append(p.Ops, Op{Kind: "enable", Actor: -1, Peer: c.Idx})
+					disabled[c.Idx] = false
 				}
 				p.Ops = append(p.Ops, Op{Kind: "up", Actor: c.Idx, Delay: g.n(3000)})
 				down[c.Idx] = false
@@ -458,9 +463,14 @@ func genWorld(seed uint64, tier string, mode string) *Script {
 				p.Ops = append(p.Ops, op)
 			case r < 94:
 				p.Ops = append(p.Ops, Op{Kind: "apidel", Actor: -1, Family: "ipv4-unicast", Prefix: pick(g, pool)})
-			case r < 96 && o.Mgmt:
+			case r < 95 && o.Mgmt:
 				p.Ops = append(p.Ops, Op{Kind: "delpeer", Actor: -1, Peer: c.Idx, Delay: g.n(300)})
 				down[c.Idx], deleted[c.Idx] = true, true
+			case r < 96 && o.Mgmt:
+				// administrative shutdown; the neighbour is enabled again later and must come back
+				// with everything its configuration says (private-AS options, policies, limits)
+				p.Ops = append(p.Ops, Op{Kind: "disable", Actor: -1, Peer: c.Idx, Delay: g.n(300)})
+				down[c.Idx], disabled[c.Idx] = true, true
 			case r < 98 && !c.NoRefresh:
 				p.Ops = append(p.Ops, Op{Kind: "refresh", Actor: c.Idx, Family: "ipv4-unicast"})
 			default:
@@ -540,6 +550,9 @@ func genWorld(seed uint64, tier string, mode string) *Script {
 	for i := range sc.Peers {
 		if deleted[i] {
 			pl.Ops = append(pl.Ops, Op{Kind: "addpeer", Actor: -1, Peer: i})
+		}
+		if disabled[i] {
+			pl.Ops = append(pl.Ops, Op{Kind: "enable", Actor: -1, Peer: i})
 		}
 	}
 	for i := range sc.Peers {
@@ -782,6 +795,10 @@ func worldOp(w *simWorld, actor int, op *Op) {
 		w.peers[op.Peer].forgoLimitNotification()
 		err := w.s.DisablePeer(context.Background(), &api.DisablePeerRequest{Address: w.peers[op.Peer].cfg.Addr})
 		w.logf("DisablePeer p%d: %v", op.Peer, err)
+		if err == nil {
+			w.probe("disable_peer")
+			w.peers[op.Peer].waitDown(5 * time.Second)
+		}
 	case "enable":
 		err := w.s.EnablePeer(context.Background(), &api.EnablePeerRequest{Address: w.peers[op.Peer].cfg.Addr})
 		w.logf("EnablePeer p%d: %v", op.Peer, err)
